@@ -158,6 +158,8 @@ def run(prop):
         bdir = os.path.join(WORK, "boundary_%s" % prop)
         subprocess.run(["python3", os.path.join(common.VERIF, "gen", "gen_boundary.py"), bdir], check=True, capture_output=True)
         funs = sorted(os.path.join(bdir, f) for f in os.listdir(bdir) if f.endswith(".sc")) + funs
+        # regression corpus (minimised past failures): always, never sampled away
+        funs = pipeline.corpus_programs("regress") + [f for f in funs if "/corpus/regress/" not in f]
         for f in funs:
             st = R.lad.stages(f)
             if st and "S4" in st and st["S4"][0] == "OK":
@@ -187,7 +189,12 @@ def run(prop):
             if mo is None or not mo.startswith("OK ") or mo[3:] != s5[1]:
                 chk.corr["disagreements"] += 1
                 chk.model_disagreements.append({"file": path, "pass": "linearize", "model": (mo or "")[:200]})
-            if "S6m" in st and st["S6m"][0] == "OK":
+            # label canonicalisation is ill-defined when user names imitate generated labels: the text
+            # correspondence is only claimed for programs satisfying the decidable LabelSafe condition
+            label_safe = R.model_line("typ labelsafe %s" % s5p) != "OK false"
+            if not label_safe:
+                chk.notes["label_unsafe_programs"] = chk.notes.get("label_unsafe_programs", 0) + 1
+            if label_safe and "S6m" in st and st["S6m"][0] == "OK":
                 mm = R.model_line("mock %s 1 0" % s5p)
                 chk.corr["compared"] += 1
                 a = common.canon_labels(st["S6m"][1].lstrip('"'), tnames)
@@ -200,7 +207,7 @@ def run(prop):
                 if arch not in R.has_codegen:
                     probe = R.model_line("codegen %s %s 1 0" % (arch, s5p))
                     R.has_codegen[arch] = bool(probe) and not probe.startswith("ERR unknown")
-                if R.has_codegen[arch] and stage in st:
+                if label_safe and R.has_codegen[arch] and stage in st:
                     mm = R.model_line("codegen %s %s 1 0" % (arch, s5p))
                     chk.corr["compared"] += 1
                     if st[stage][0] == "OK":
@@ -219,6 +226,21 @@ def run(prop):
                     if not same:
                         chk.corr["disagreements"] += 1
                         chk.model_disagreements.append({"file": path, "pass": "codegen-" + arch, "model": (mm or "")[:200]})
+            # --- C14: the system assemblers must accept the text
+            if prop == "C14":
+                import native
+
+                for arch, stage, asm in (("x86", "S7x", native.assemble_x86), ("a64", "S7a", native.assemble_a64)):
+                    if stage in st and st[stage][0] == "OK":
+                        okA, msg, _ = asm(st[stage][1], R.dir)
+                        chk.corr["compared"] += 0
+                        if not okA:
+                            found = True
+                            ls = R.model_line("typ labelsafe %s" % s5p)
+                            key = "asm:label-collision:unsafe-names" if ls == "OK false" and "already defined" in msg or ls == "OK false" and "redefin" in msg else "C14:%s:assembler-rejects" % arch
+                            chk.impl_oracle_failures.append({"file": path, "arch": arch, "assembler": msg[:200], "labelsafe": ls})
+                            chk.violation(key, "%s assembler rejects the text of %s: %s" % (arch, os.path.basename(path), msg.strip().split("\n")[-1][:160]),
+                                          "asm_%s_%s.txt" % (arch, os.path.basename(path)), "file=%s\narch=%s\nassembler message:\n%s\nLabelSafe=%s\n" % (path, arch, msg, ls))
             # --- oracles on the implementation's text
             tuples = [[chk.rng.choice([0, 1, 2, 3, 5, 7]) for _ in range(nargs)]]
             if nargs:
@@ -235,7 +257,7 @@ def run(prop):
                     if arch == "rv" and " " in text.split("\n", 1)[0]:
                         text = text.split(" ", 1)[1]  # harness payload of S7r: `<nargs> <text>`
                     ap = R.write("%s.asm" % stage, text)
-                    line = R.model_line("asm %s %s %s %d %s" % (arch, ap, a, R.lad.asm_fuel, "heap,wf" if prop == "C14" else "heap"))
+                    line = R.model_line("asm %s %s %s %d %s" % (arch, ap, a, R.lad.asm_fuel, "heap,wf" if prop == "C14" else ("heap" if spec["classes"] & {"inv", "oob", "cc", "align", "undef"} else "none")))
                     if line is not None and line.startswith("ERR unknown"):
                         continue
                     results[arch] = line
@@ -243,12 +265,17 @@ def run(prop):
                     beh = ladder.norm_behaviour(line)
                     if cls is None and pos and beh and pos[1] != "outOfFuel" and beh[1] != "outOfFuel" and beh != pos:
                         cls = "sem"
+                    if cls and cls not in spec["classes"] and "sem" in spec["classes"] and pos and pos[1].startswith("done") and beh != pos and not (beh and beh[1] == "outOfFuel"):
+                        cls = "sem"  # any abnormal end of the machine where the AxCut program terminates normally is a behavioural difference
                     if cls == "fault" and pos and pos[1].startswith("stuck"):
                         cls = None
                     if cls and cls in spec["classes"]:
                         found = True
                         chk.impl_oracle_failures.append({"file": path, "arch": arch, "args": args, "class": cls, "machine": (line or "")[:200], "pos": pos})
                         key = known_key(prop, arch, cls, line, st[stage][1])
+                        if cls == "wf" and "more than once" in (line or ""):
+                            if R.model_line("typ labelsafe %s" % s5p) == "OK false":
+                                key = "asm:label-collision:unsafe-names"
                         chk.violation(key, "%s %s on %s args %s: %s (positional machine: %s)" % (arch, cls, os.path.basename(path), args, (line or "")[:160], pos),
                                       "%s_%s_%s.txt" % (arch, cls, os.path.basename(path)),
                                       "file=%s\narch=%s\nargs=%s\nclass=%s\nmachine=%s\npositional=%s\nprogram:\n%s\n" % (path, arch, args, cls, line, pos, open(path).read()[:20000]))
